@@ -201,6 +201,43 @@ def failing_prints():
     return out
 
 
+def has_nested_field(m, inside=False):
+    hy = pc.hy_mod()
+    if isinstance(m, hy.models.FComponent):
+        return inside or any(has_nested_field(x, True) for x in list(m)[1:]) or has_nested_field(m[0], False) if len(m) else inside
+    if isinstance(m, hy.models.Sequence):
+        return any(has_nested_field(x, False) for x in m)
+    return False
+
+
+def retag(m, rng):
+    """the same tree built with the model constructors, every replacement field given a conversion drawn here (the reader
+    can produce each combination: a conversion is written per field); nothing of a field comes from the reader's bookkeeping"""
+    M = pc.hy_mod().models
+    if isinstance(m, M.FComponent):
+        return M.FComponent([retag(x, rng) for x in m], conversion=rng.choice([None, None, "r", "s", "a"]),
+                            is_tstring=m.is_tstring)
+    if isinstance(m, M.FString):
+        return M.FString([retag(x, rng) for x in m], brackets=m.brackets, is_tstring=m.is_tstring)
+    if isinstance(m, M.Sequence):
+        return type(m)([retag(x, rng) for x in m])
+    return m
+
+
+def built_models():
+    """models made with the constructors alone: fields nested in the spec of a field with a conversion, without one of
+    their own (and the other way round)"""
+    M = pc.hy_mod().models
+    S, F = (lambda n: M.Symbol(n, from_parser=True)), M.FComponent
+    return [
+        ("<built> outer !r, nested none", M.FString([F([S("name"), M.String(">"), F([S("width")])], conversion="r")])),
+        ("<built> outer !s, nested twice none", M.FString([M.String("v="), F([S("x"), F([S("y"), F([S("z")])])], conversion="s")])),
+        ("<built> outer none, nested !a", M.FString([F([S("x"), M.String("*^"), F([S("k")], conversion="a")])])),
+        ("<built> outer !a, nested !r and none", M.FString([F([S("x"), F([S("p")], conversion="r"), M.String("<"), F([S("q")])], conversion="a")])),
+        ("<built> t-string outer !r, nested none", M.FString([F([S("a"), F([S("w")])], conversion="r", is_tstring=True)], is_tstring=True)),
+    ]
+
+
 def gen_models(chk, n):
     """models read from generated Hy texts over every syntax form, plus recombinations of their parts"""
     hy = pc.hy_mod()
@@ -216,6 +253,8 @@ def gen_models(chk, n):
             continue
         out.append((src, m))
         pool.append(m)
+        if has_nested_field(m) and rng.random() < 0.6:
+            out.append(("<retagged> " + src, retag(m, rng)))
         if len(pool) > 3 and rng.random() < 0.25:
             # assemble a model from reader-valid parts: any forms may be the elements of a sequence
             kind = rng.choice([M.Expression, M.List, M.Dict, M.Set, M.Tuple])
@@ -242,7 +281,8 @@ def run(chk):
     chk.trusted = TRUSTED
     chk.assumptions = [
         "a model the reader can produce = a model obtained by hy.read from some text, or a sequence model whose elements are "
-        "such models (any form may be an element of a sequence)",
+        "such models (any form may be an element of a sequence), or the tree of such a model rebuilt with the model "
+        "constructors, each replacement field with a conversion of its own choice",
         "equality is judged node by node: model type, value (floats by bits, every NaN equal), brackets, conversion, "
         "is_tstring; FComponent.expression and source positions are not part of the property",
         "Integer models stay below CPython's int-to-str digit limit",
@@ -261,6 +301,7 @@ def run(chk):
     cases = []
     for s in FIXED_TEXTS:
         cases.append((s, hy.read(s)))
+    cases += built_models()
     cases += gen_models(chk, n)
     impl = []
     for src, m in cases:
@@ -320,7 +361,9 @@ def run(chk):
                         rep_ok = False
                 for c in classes:
                     chk.count("known-class:" + c)
-                chk.fail("roundtrip", {"source": src[:300], "repr": hy.repr(m)[:300], "classes": classes,
+                chk.fail("roundtrip", {"source": src[:300], "model": repr(m)[:700] if src.startswith("<") else "hy.read(source)",
+                                       "repr": hy.repr(m)[:300], "classes": classes,
                                        "repaired_roundtrips": rep_ok, "failed_prints_before": n_failed_prints},
                          observed, "a model equal to the original at every node, printing as the same text",
-                         "PYTHONPATH=%s python: m = hy.read(source); hy.eval(hy.read(hy.repr(m)))" % vlib.REPO)
+                         "PYTHONPATH=%s python: m = hy.read(source), or the model given (built with the constructors); "
+                         "hy.eval(hy.read(hy.repr(m)))" % vlib.REPO)
